@@ -2,10 +2,16 @@
 //! please ref the doc from std::sync::mpsc
 use std::fmt;
 use std::panic::{RefUnwindSafe, UnwindSafe};
+#[cfg(not(may_verif))]
 use std::sync::atomic::{AtomicBool, AtomicUsize, Ordering};
+#[cfg(may_verif)]
+use crate::verif::atomic::{AtomicBool, AtomicUsize, Ordering};
 use std::sync::mpsc::{RecvError, RecvTimeoutError, SendError, TryRecvError};
 use std::sync::Arc;
+#[cfg(not(may_verif))]
 use std::time::{Duration, Instant};
+#[cfg(may_verif)]
+use {crate::verif::Instant, std::time::Duration};
 
 use super::{AtomicOption, Blocker};
 use crate::likely::{likely, unlikely};
